@@ -35,6 +35,7 @@ type LoopSpec struct {
 	Decreases  *Clause
 	Uses       []*Clause
 	Preserves  []*Clause // heap keys that no reachable store of the body changes (checked at every latch)
+	FreshWr    []*Clause // heap keys (E.*) the body writes only in arrays allocated since function entry (checked at every latch)
 	Unroll     int
 }
 
@@ -418,6 +419,8 @@ func (cs *ContractSet) parseContractFile(path string, defaultPkg, defaultPkgName
 				ls.Uses = append(ls.Uses, c)
 			case "preserves":
 				ls.Preserves = append(ls.Preserves, c)
+			case "freshwrites":
+				ls.FreshWr = append(ls.FreshWr, c)
 			case "unroll":
 				ls.Unroll, _ = strconv.Atoi(text)
 				continue
